@@ -68,7 +68,7 @@ func VerifC46NewActionParams(action string, start, expiry uint64) *VerifC46Actio
 		a := newDepositSweepAction(nil, nil, nil, wallet{}, nil, nil, start, expiry, nil)
 		return &VerifC46ActionParams{a.signingTimeoutSafetyMarginBlocks, a.broadcastTimeout, a.broadcastCheckDelay, a.proposalProcessingStartBlock, a.proposalExpiryBlock}
 	case "redemption":
-		a := newRedemptionAction(nil, nil, nil, wallet{}, nil, nil, start, expiry, nil)
+		a := newRedemptionAction(nil, nil, nil, wallet{}, nil, &RedemptionProposal{RedemptionTxFee: big.NewInt(0)}, start, expiry, nil)
 		return &VerifC46ActionParams{a.signingTimeoutSafetyMarginBlocks, a.broadcastTimeout, a.broadcastCheckDelay, a.proposalProcessingStartBlock, a.proposalExpiryBlock}
 	case "movingFunds":
 		a := newMovingFundsAction(nil, nil, nil, wallet{}, nil, nil, start, expiry, nil)
